@@ -7,7 +7,9 @@
 set -u
 W=/tmp/ns/w$1; PATCH=$2; P=$3; T=${4:-quick}
 mkdir -p $W/repo $W/target $W/evidence $W/replays
-rsync -a --delete --exclude target /repo/ $W/repo/
+# every file rsync had to restore gets a fresh mtime: cargo decides by mtime, and a pristine file
+# restored with its old mtime after a patched run would leave the patched build in place
+rsync -a --delete --exclude target --out-format='%n' /repo/ $W/repo/ | while read -r f; do [ -f "$W/repo/$f" ] && touch "$W/repo/$f"; done
 if [ "$PATCH" != "-" ]; then (cd $W/repo && git apply "$PATCH") || { echo "patch does not apply"; exit 2; }; fi
 unshare -m bash -c "mount --bind $W/repo /repo && mount --bind $W/target /verif/target && mount --bind $W/evidence /verif/evidence && mount --bind $W/replays /verif/replays && cd /verif && ./check $P --tier $T" > $W/last-$P-$T.log 2>&1
 rc=$?
